@@ -260,10 +260,10 @@ class SimCondition:
     return self
 
   def __exit__(self, et, ev, tb):
-    if self.s.killed or et is SimKill:
+    if self.s.killed or (et is not None and issubclass(et, (SimKill, Deadlock, StepCap))):
+      # the run is being torn down (or the scheduler is reporting): unwind quietly
       if self.owner == self.s.me():
-        self.owner = None
-        self.depth = 0
+        self._release_all()
       return False
     self.release()
     return False
